@@ -45,6 +45,50 @@ func genLeases() []mtypes.LeaseID {
 	return out
 }
 
+// extreme but legal ids, used (a) in the lidNS validity/injectivity grid and (b) as additional leases of
+// the builder and deploy paths: longest decimal renderings, and ids whose renderings collide when
+// concatenated without separators (dseq 1,gseq 12 / dseq 11,gseq 2 / dseq 1,gseq 1,oseq 2 ...).
+const (
+	dseq1e17 = uint64(100000000000000000)
+	dseq2p63 = uint64(1) << 63
+	dseqMax  = ^uint64(0)
+	seqMax   = ^uint32(0)
+)
+
+func genExtremeLeases() []mtypes.LeaseID {
+	owners := []string{addr(1), addr(2)}
+	p := addr(101)
+	var out []mtypes.LeaseID
+	for _, o := range owners {
+		out = append(out,
+			mtypes.LeaseID{Owner: o, DSeq: dseq1e17, GSeq: 1, OSeq: 1, Provider: p},
+			mtypes.LeaseID{Owner: o, DSeq: dseq2p63, GSeq: seqMax, OSeq: 1, Provider: p},
+			mtypes.LeaseID{Owner: o, DSeq: dseqMax, GSeq: seqMax, OSeq: seqMax, Provider: p},
+			mtypes.LeaseID{Owner: o, DSeq: 1, GSeq: 12, OSeq: 1, Provider: p},
+			mtypes.LeaseID{Owner: o, DSeq: 11, GSeq: 2, OSeq: 1, Provider: p},
+		)
+	}
+	return out
+}
+
+// genLidNSGrid: 2 owners x 2 providers x dseq{1,11,12,111,256,257,65536,10^17,2^63,2^64-1} x
+// gseq{1,2,12,2^32-1} x oseq{1,2,12,2^32-1} = 640 ids.
+func genLidNSGrid() []mtypes.LeaseID {
+	var out []mtypes.LeaseID
+	for _, o := range []string{addr(1), addr(2)} {
+		for _, p := range []string{addr(101), addr(102)} {
+			for _, d := range []uint64{1, 11, 12, 111, 256, 257, 65536, dseq1e17, dseq2p63, dseqMax} {
+				for _, g := range []uint32{1, 2, 12, seqMax} {
+					for _, q := range []uint32{1, 2, 12, seqMax} {
+						out = append(out, mtypes.LeaseID{Owner: o, DSeq: d, GSeq: g, OSeq: q, Provider: p})
+					}
+				}
+			}
+		}
+	}
+	return out
+}
+
 // ---- settings ----
 
 type ingressOpt struct {
@@ -244,7 +288,7 @@ func genGroups(tier string) []manifest.Group {
 }
 
 func describeGrammar(tier string, nl, ns, ng int) string {
-	return fmt.Sprintf("leases=%d (2 owners x 2 providers x dseq{1,12,256,257,65536} x gseq{1,2} x oseq{1,2}); "+
+	return fmt.Sprintf("leases=%d (80 = 2 owners x 2 providers x dseq{1,12,256,257,65536} x gseq{1,2} x oseq{1,2}, plus 10 extreme ids = 2 owners x {(10^17,1,1),(2^63,2^32-1,1),(2^64-1,2^32-1,2^32-1),(1,12,1),(11,2,1)}); "+
 		"settings=%d (commit triples over {1,1.5,2,10}: %s; netpol{off,on}; runtimeclass{\"\",none,gvisor}; 3 ingress option sets); "+
 		"groups=%d (service web: env{absent,present} x expose sets x count{1,2} x %d resource sizes; optional service db from a reduced shape set)",
 		nl, ns, map[string]string{"quick": "4 uniform x netpol x 5 (runtime class, ingress) pairs + 9 single-raised under (netpol on, gvisor, static hosts)", "thorough": "all 64"}[tier], ng, len(resSizes(tier)))
